@@ -95,6 +95,8 @@ fn make_ring(flavour: &str, consts: &Value) -> Option<Box<dyn Sut>> {
             3 => arr!(3),
             4 => arr!(4),
             5 => arr!(5),
+            16 => arr!(16),
+            40 => arr!(40),
             _ => return None,
         },
         "fixed" => Box::new(ring::RingSut::<FixedHeapBuf<Tag>>::new(consts, |_| None, false)),
@@ -112,6 +114,7 @@ fn make_mpmc(flavour: &str, consts: &Value) -> Option<Box<dyn Sut>> {
                 1 => Box::new(ChanSut::<$kind<$m, ArrayBuf<Tag, [Tag; 1]>>>::new(consts, false)),
                 2 => Box::new(ChanSut::<$kind<$m, ArrayBuf<Tag, [Tag; 2]>>>::new(consts, false)),
                 3 => Box::new(ChanSut::<$kind<$m, ArrayBuf<Tag, [Tag; 3]>>>::new(consts, false)),
+                40 => Box::new(ChanSut::<$kind<$m, ArrayBuf<Tag, [Tag; 40]>>>::new(consts, false)),
                 _ => return None,
             }
         };
